@@ -4,6 +4,7 @@ use heck::{
 };
 use std::str::FromStr;
 use syn::{
+    ext::IdentExt,
     parse::{Parse, ParseStream},
     Ident, LitStr,
 };
@@ -86,7 +87,8 @@ pub trait CaseStyleHelpers {
 
 impl CaseStyleHelpers for Ident {
     fn convert_case(&self, case_style: Option<CaseStyle>) -> String {
-        let ident_string = self.to_string();
+        // A raw identifier (`r#type`) names the variant `type`.
+        let ident_string = self.unraw().to_string();
         if let Some(case_style) = case_style {
             match case_style {
                 CaseStyle::PascalCase => ident_string.to_upper_camel_case(),
@@ -163,6 +165,8 @@ mod tests {
 /// heck doesn't treat numbers as new words, but this function does.
 /// E.g. for input `Hello2You`, heck would output `hello2_you`, and snakify would output `hello_2_you`.
 pub fn snakify(s: &str) -> String {
+    // A raw identifier (`r#type`) names the variant `type`.
+    let s = s.strip_prefix("r#").unwrap_or(s);
     let mut output: Vec<char> = s.to_string().to_snake_case().chars().collect();
     let mut num_starts = vec![];
     for (pos, c) in output.iter().enumerate() {
